@@ -89,7 +89,10 @@ def validate(run, scripts, label):
         accepted += len(done_before)
         todo = [s for s in todo if s > si]
     if todo:
-        raise vf.Inconclusive("more than 6 traces rejected outright; giving up (%d left)" % len(todo))
+        # every rejected event is an observation of the real server that the specification forbids:
+        # report those (exit 1); the traces not looked at any more are only counted
+        run.cov["traces_not_validated_after_6_rejections"] = len(todo)
+        run.log("6 traces rejected outright; %d traces left unvalidated" % len(todo))
     return accepted, devs, rejected
 
 
